@@ -35,3 +35,40 @@ Definition c09_rot_ok (tr : trace) : bool :=
   match run rot_step (mkMR [] []) tr with Some _ => true | None => false end.
 
 Definition c09_rot_fail_at (tr : trace) : option nat := first_reject rot_step (mkMR [] []) tr 0.
+
+(** ** A failed probe takes the target out of the rotation
+
+    "A target whose latest probe failed receives no new requests until a later probe succeeds": whatever the target's
+    recorded state was, a probe goroutine that applies a FAILING result while its target is in the rotation rebuilt last
+    must rebuild that rotation (without the target) before it applies its next result.  ([c09_rebuild_ok] asks for the
+    rebuild only when the recorded state changed; a target already marked unhealthy by some other path would slip by.) *)
+Record mone := mkME {
+  e_lb : list (nat * nat);          (* target -> balancer *)
+  e_rot : list (nat * list nat);    (* balancer -> rotation rebuilt last *)
+  e_owe : list (actor * nat)        (* probe goroutine -> target it must get out of the rotation *)
+}.
+
+Definition owes_e (l : list (actor * nat)) (a : actor) : bool := existsb (fun p => actor_eqb a (fst p)) l.
+
+Definition excl_step (m : mone) (e : event) : option mone :=
+  match e_k e with
+  | KLbNew lb ts => Some (mkME (fold_left (fun l t => nset l t lb) ts (e_lb m)) (nset (e_rot m) lb []) (e_owe m))
+  | KRotation lb hs =>
+    (* a rebuild by a goroutine that owes one must leave its target out *)
+    if existsb (fun p => actor_eqb (e_by e) (fst p) && nmem (snd p) hs) (e_owe m) then None
+    else Some (mkME (e_lb m) (nset (e_rot m) lb hs) (filter (fun p => negb (actor_eqb (e_by e) (fst p))) (e_owe m)))
+  | KProbeApply t ok _ new =>
+    if owes_e (e_owe m) (e_by e) then None
+    else if ok || tstate_eqb new TDraining then Some m   (* a draining target keeps its state: recorded finding D12's business *)
+    else
+      let in_rot := match nget (e_lb m) t with
+                    | Some lb => match nget (e_rot m) lb with Some hs => nmem t hs | None => false end
+                    | None => false end in
+      Some (if in_rot then mkME (e_lb m) (e_rot m) ((e_by e, t) :: e_owe m) else m)
+  | _ => Some m
+  end.
+
+Definition c09_excl_ok (tr : trace) : bool :=
+  match run excl_step (mkME [] [] []) tr with Some _ => true | None => false end.
+
+Definition c09_excl_fail_at (tr : trace) : option nat := first_reject excl_step (mkME [] [] []) tr 0.
